@@ -3261,7 +3261,31 @@ def generate_all(out_dir=OUT, only=ONLY):
         if ent and ent.get("hash") == hsh and os.path.exists(os.path.join(out_dir, fname)):
             broken += ent.get("broken", [])
             continue
-        b = generate(out_dir, targets=ts, fname=fname)
+        # second-level cache: earlier generations of this file keyed by source hash (switching back and forth between two
+        # versions of a crate — a seeded patch applied and removed — must not cost two full translations)
+        vdir = os.path.join(out_dir, ".versions")
+        vfile = os.path.join(vdir, f"{fname}.{hsh[:24]}")
+        if os.path.exists(vfile) and os.path.exists(vfile + ".broken"):
+            txt = open(vfile).read()
+            dst = os.path.join(out_dir, fname)
+            if not os.path.exists(dst) or open(dst).read() != txt:
+                open(dst, "w").write(txt)
+            b = json.load(open(vfile + ".broken"))
+        else:
+            b = generate(out_dir, targets=ts, fname=fname)
+            try:
+                os.makedirs(vdir, exist_ok=True)
+                import shutil
+                shutil.copyfile(os.path.join(out_dir, fname), vfile)
+                json.dump(b, open(vfile + ".broken", "w"))
+                olds = sorted((f for f in os.listdir(vdir) if f.startswith(fname + ".") and not f.endswith(".broken")),
+                              key=lambda f: os.path.getmtime(os.path.join(vdir, f)))
+                for f in olds[:-3]:
+                    os.remove(os.path.join(vdir, f))
+                    if os.path.exists(os.path.join(vdir, f + ".broken")):
+                        os.remove(os.path.join(vdir, f + ".broken"))
+            except OSError:
+                pass
         cache[fname] = {"hash": hsh, "broken": b}
         broken += b
     try:
